@@ -46,13 +46,17 @@ def item_roots(indesc, acc):
     return acc
 
 
+def voc_of(ed):
+    return ed[2] if len(ed) > 2 else None
+
+
 def canon_exec(plan, ed, ren=None):
     """Hashable canonical form of an execution description; dwfl contexts are
     renumbered in order of first occurrence so that equal shapes compare
     equal."""
     if ren is None:
         ren = {}
-    prog, indesc = ed
+    prog, indesc = ed[0], ed[1]
     pp = plan["progs"][prog]
     items = []
     for it in indesc:
@@ -65,7 +69,7 @@ def canon_exec(plan, ed, ren=None):
             items.append(("V", ren[ctx.id], ctx.path, ctx.raw))
         else:
             items.append(("O", canon_exec(plan, it[1], ren), it[2], it[3]))
-    return (pp["text"], pp.get("mode", 0), tuple(items))
+    return (pp["text"], pp.get("mode", 0), tuple(items), voc_of(ed))
 
 
 class BaselineBuilder:
@@ -83,6 +87,7 @@ class BaselineBuilder:
                             "watchdog_s": kn.get("baseline_watchdog_s", 3)}
         self.progmap = {}
         self.ctxmap = {}
+        self.vocmap = {}
         self.nq = self.ni = self.nr = self.no = self.nv = 0
 
     def prog(self, idx):
@@ -94,6 +99,16 @@ class BaselineBuilder:
     def add(self, op, *args):
         self.bp["steps"].append(P.step(0, op, *args))
         return len(self.bp["steps"]) - 1
+
+    def parse(self, q, ed):
+        """PARSE with the vocabulary kind of the execution description."""
+        voc = voc_of(ed)
+        if voc is None:
+            return self.add("PARSE", q, self.prog(ed[0]))
+        if voc not in self.vocmap:
+            self.vocmap[voc] = len(self.vocmap)
+            self.add("VOC", self.vocmap[voc], *voc)
+        return self.add("PARSE", q, self.prog(ed[0]), self.vocmap[voc])
 
     def build_input(self, indesc):
         items = []
@@ -119,7 +134,7 @@ class BaselineBuilder:
     def build_exec_keep(self, ed, k):
         q = self.nq
         self.nq += 1
-        self.add("PARSE", q, self.prog(ed[0]))
+        self.parse(q, ed)
         i, _ = self.build_input(ed[1])
         r = self.nr
         self.nr += 1
@@ -136,7 +151,7 @@ class BaselineBuilder:
         # compiled anything.
         q = self.nq
         self.nq += 1
-        self.i_parse = self.add("PARSE", q, self.prog(ed[0]))
+        self.i_parse = self.parse(q, ed)
         i, self.i_mkin = self.build_input(ed[1])
         r = self.nr
         self.nr += 1
@@ -229,9 +244,9 @@ class Baselines:
                        "watchdog_s": kn.get("baseline_watchdog_s", 3)}
         return bp
 
-    def parse(self, prog_idx):
+    def parse(self, prog_idx, voc=None):
         pp = self.plan["progs"][prog_idx]
-        key = (pp["text"], pp.get("mode", 0))
+        key = (pp["text"], pp.get("mode", 0), voc)
         if key not in self.parse_cache and self.over_budget():
             b = Baseline()
             b.why = "time"
@@ -239,14 +254,17 @@ class Baselines:
         if key not in self.parse_cache:
             bp = self._mini()
             bp["progs"] = [dict(pp)]
-            bp["steps"] = [P.step(0, "PARSE", 0, 0)]
+            if voc is None:
+                bp["steps"] = [P.step(0, "PARSE", 0, 0)]
+            else:
+                bp["steps"] = [P.step(0, "VOC", 0, *voc), P.step(0, "PARSE", 0, 0, 0)]
             resp = self.z.run(bp)
             self.runs += 1
             b = Baseline()
             b.plan, b.resp = bp, resp
             if resp.fatal_class() is None and resp.events:
                 b.ok = True
-                b.parse = parse_sig(resp.events[0])
+                b.parse = parse_sig(resp.events[-1])
             else:
                 b.why = resp.fatal_class() or "no-events"
                 if resp.viol and resp.viol[0] == "hang":
@@ -336,6 +354,7 @@ def verify_history(plan, resp, baselines, check_seq=True):
     baselines.  Returns (Violation or None, RunStats)."""
     st = RunStats()
     Q, V, I, R, O = {}, {}, {}, {}, {}
+    VOCS, QVOC = {}, {}
     st.tables = (Q, V, I, R, O)
     prog_parsed = {}        # prog idx -> times compiled ok
     exec_seen_since_rej = False
@@ -357,10 +376,15 @@ def verify_history(plan, resp, baselines, check_seq=True):
         if fired:
             st.iofired += 1
 
-        if ev.op == "PARSE":
+        if ev.op == "VOC":
+            VOCS[int(a[0])] = tuple(a[1:])
+            st.probe("vocabulary_built_by_plan")
+        elif ev.op == "PARSE":
             q, p = int(a[0]), int(a[1])
+            pvoc = VOCS.get(int(a[2])) if len(a) >= 3 else None
             if ev.outcome == "ok":
                 Q[q] = p
+                QVOC[q] = pvoc
                 st.parses_ok += 1
                 prog_parsed[p] = prog_parsed.get(p, 0) + 1
                 if prog_parsed[p] == 2:
@@ -370,7 +394,7 @@ def verify_history(plan, resp, baselines, check_seq=True):
                 if st.execs > 0:
                     rej_between = True
             if check_seq:
-                b = baselines.parse(p)
+                b = baselines.parse(p, pvoc)
                 if b.ok:
                     if parse_sig(ev) != b.parse:
                         return bad("parse-stable", ev, "fresh: %s ; here: %s"
@@ -428,7 +452,7 @@ def verify_history(plan, resp, baselines, check_seq=True):
 
         elif ev.op == "EXEC":
             r, q, i = int(a[0]), int(a[1]), int(a[2])
-            ed = (Q[q], I[i]["desc"])
+            ed = (Q[q], I[i]["desc"]) if QVOC.get(q) is None else (Q[q], I[i]["desc"], QVOC[q])
             roots = item_roots(ed[1], set())
             if fired:
                 for c in roots:
